@@ -160,7 +160,7 @@ def check(run):
                 if b[1] != want:
                     run.violation("bulk status is not the readability label of the returned colour against that background at that text size",
                                   case, index=i, got=b[1], expected=want, colour=repr(out), reads_as=list(shown), bg=list(bgc), large=large)
-            enc.append(enc_colour(out) + " " + b[1].encode().hex())
+            enc.append(enc_colour(out) + " " + (b[1].encode().hex() if isinstance(b[1], str) else "x:" + repr(b[1])))
         if ji in mo:
             ms = mo[ji].split(" ; ") if mo[ji] else []
             if len(items) == 0:
